@@ -1361,7 +1361,7 @@ func (x *Exec) callEffects(n *ast.CallExpr, info *types.Info) (allocs, ghosts bo
 	if pureLib[full] {
 		return false, false, nil
 	}
-	if full == "io.WriteString" {
+	if full == "io.WriteString" || full == "fmt.Fprintln" || full == "fmt.Fprint" {
 		return false, true, nil
 	}
 	if full == "(io.Writer).Write" || full == "(*bufio.Scanner).Scan" || full == "(*encoding/csv.Reader).Read" || full == "(*github.com/biogo/hts/sam.Reader).Read" {
@@ -1483,7 +1483,7 @@ func (x *Exec) ghostHandlesIn(body ast.Node, st *State, env *Env) (all bool, han
 			if full == "(*github.com/biogo/hts/sam.Reader).Header" {
 				return true
 			}
-			if full == "io.WriteString" && len(n.Args) > 0 {
+			if (full == "io.WriteString" || full == "fmt.Fprintln" || full == "fmt.Fprint") && len(n.Args) > 0 {
 				if t, ok := termOf(n.Args[0]); ok {
 					handles[t] = true
 				} else {
